@@ -1646,6 +1646,11 @@ func (pc *PartitionContext) removeAllocation(release *si.AllocationRelease) ([]*
 	}
 
 	if release.TerminationType != si.TerminationType_TIMEOUT {
+		// an ask that is the real half of an inflight placeholder replacement is not tracked as an allocation yet:
+		// reverse the replacement before the ask goes
+		if ask := app.GetAllocationAsk(allocationKey); ask != nil && !ask.IsPlaceholder() && ask.HasRelease() {
+			pc.reverseInflightReplacement(app, ask.GetRelease())
+		}
 		// handle ask releases as well
 		_ = app.RemoveAllocationAsk(allocationKey)
 	}
